@@ -7,5 +7,5 @@ git -C /repo worktree add --detach $WT >/dev/null 2>&1 || exit 3
 if ! git -C $WT apply "$D"; then echo "PATCH-DOES-NOT-APPLY"; git -C /repo worktree remove --force $WT; exit 4; fi
 cd /verif && VERIF_REPO=$WT ./check $P "$@" 2>&1 | grep -E "^(VIOLATION|KNOWN|BROKEN|C[0-9]+ tier)" | cut -c1-400
 rc=$?
-rm -f /verif/harness/.go-*.mod /verif/harness/.go-*.sum
+H=$(printf %s "$WT" | sha256sum | cut -c1-8); rm -f /verif/.build/bin/*-$H /verif/harness/.go-$H.mod /verif/harness/.go-$H.sum
 git -C /repo worktree remove --force $WT
